@@ -147,7 +147,8 @@ func genArgs(c *Ctx, name string, proto int) []string {
 		}
 		return one([]string{"255.255.255.0", "255.255.255.255", "0.0.0.0", "255.0.255.0", "255.255.255.254", "ffff:ff00::", "garbage", "128.0.0.0", "255.255.0.0", "::ffff:255.255.255.0", "255.255.255.1"})
 	case "searchdomains":
-		return pickN(c, []string{"example.com", "a.b.c", "", "x", "with..dots", strings.Repeat("l", 64) + ".org", strings.Repeat("m", 300), "trailing.", ".leading", "sub.example.net"}, 0, 3)
+		return pickN(c, []string{"example.com", "a.b.c", "", "x", "with..dots", strings.Repeat("l", 64) + ".org", strings.Repeat("m", 300), "trailing.", ".leading", "sub.example.net",
+			strings.Repeat("l", 63) + ".org", strings.Repeat("é", 32) + ".example", strings.Repeat("é", 31) + ".example", strings.Repeat("😀", 16) + ".org", strings.Repeat("😀", 60) + ".org"}, 0, 3)
 	case "staticroute":
 		pool := []string{"10.0.0.0/8,192.168.1.1", "0.0.0.0/0,10.0.0.1", "192.168.5.0/24,192.168.1.254", "10.1.2.3/32,10.0.0.1", "10.128.0.0/9,10.0.0.1",
 			"2001:db8::/32,10.0.0.1", "10.0.0.0/8,2001:db8::1", "::ffff:10.0.0.0/104,192.168.1.1", "::/0,10.0.0.1", "10.0.0.0/8", "10.0.0.0/8,1.1.1.1,2.2.2.2", "10.0.0.0/33,1.1.1.1", "garbage", "10.0.0.0/8,", ",10.0.0.1"}
@@ -275,6 +276,17 @@ func battery4(c *Ctx, name string, args []string) []run4 {
 			out = append(out, mk(p, []byte{1, 3}[r.Intn(2)], 1, nil, nil, nil, []net.IP{nil, {10, 0, 0, 5}}[r.Intn(2)], r.Pct(30), []byte{2, 5}[r.Intn(2)]))
 		}
 		out = append(out, mk(nil, 1, 2, nil, nil, nil, nil, false, 2), mk(nil, 1, 1, nil, nil, nil, nil, true, 2), mk(nil, 1, 1, nil, nil, nil, nil, false, 2))
+		// the request itself carries the option the plugin is about to set (a client stating the
+		// lease time, MTU, ... it would like): what the reply gets must not depend on it
+		for _, code := range []uint8{1, 3, 6, 26, 51, 66, 67, 108, 119, 121} {
+			x := mk(prls[r.Intn(len(prls))], []byte{1, 3}[r.Intn(2)], 1, nil, nil, nil, nil, false, []byte{2, 5}[r.Intn(2)])
+			x.req.Options[code] = [][]byte{{0, 0, 14, 16}, {5, 220}, {10, 0, 0, 1}, {}}[r.Intn(4)]
+			rq, err := dhcpv4.FromBytes(x.req.ToBytes())
+			if err == nil {
+				x.req = rq
+				out = append(out, x)
+			}
+		}
 	}
 	return out
 }
